@@ -864,6 +864,30 @@ where
     ///   4. fsync once — advance durable_index, wake WaitDurable callers.
     ///
     /// Safety-net timer fires after `idle_flush_interval_ms` of inactivity.
+    /// Verification hook (feature `verif-hooks`): same as `start()` but instead of spawning
+    /// the `raft-io` OS thread with its own runtime, returns the very same `batch_processor`
+    /// future for the caller to drive on its own (deterministic) runtime.
+    #[cfg(feature = "verif-hooks")]
+    pub fn verif_start_local(
+        mut self,
+        receiver: mpsc::UnboundedReceiver<IOTask>,
+        log_flush_tx: Option<mpsc::UnboundedSender<crate::InternalEvent>>,
+    ) -> (
+        Arc<Self>,
+        std::pin::Pin<Box<dyn std::future::Future<Output = ()> + Send + 'static>>,
+    ) {
+        self.log_flush_tx = log_flush_tx;
+        let arc_self = Arc::new(self);
+        let weak_self = Arc::downgrade(&arc_self);
+        let idle_flush_interval_ms = arc_self.idle_flush_interval_ms;
+        let fut = Box::pin(Self::batch_processor(
+            weak_self,
+            receiver,
+            idle_flush_interval_ms,
+        ));
+        (arc_self, fut)
+    }
+
     async fn batch_processor(
         this: std::sync::Weak<Self>,
         mut receiver: mpsc::UnboundedReceiver<IOTask>,
